@@ -12,7 +12,9 @@ namespace Jxl.Enc
 open Jxl.Entropy
 
 /-- 0 fixed prefix · 1 prefix (Huffman) · 2 ANS · 3 prefix + LZ77 runs · 4 ANS + LZ77 runs ·
-5 prefix + general LZ77 (previous sample / previous row neighbourhood) · 6 ANS + general LZ77 -/
+5 prefix + general LZ77 (previous sample / previous row neighbourhood) · 6 ANS + general LZ77 ·
+7 / 8 = 5 / 6 but no copy starts in a context of cluster 0 (that cluster then holds literals only: a
+constant channel in it is a single-symbol histogram although LZ77 is on) -/
 abbrev EntMode := Nat
 
 structure Coder where
@@ -20,6 +22,8 @@ structure Coder where
   /-- resolved plan (modes 1–4) -/
   plan : EntropyPlan
   v0 : V0Plan
+  /-- contexts in which no copy may start (modes 7, 8) -/
+  noCopyCtx : List Nat := []
   deriving Inhabited
 
 def runItems (minLen : Nat) (toks : List (Nat × Nat)) : List Item :=
@@ -52,7 +56,7 @@ def matchLen (a : Array Nat) (i d cap : Nat) : Nat :=
 
 /-- greedy LZ77 parse with copies from the previous sample, the previous row and its neighbours
 (`mult` = the distance multiplier of the sub-bitstream = its widest channel) -/
-def lzItems (mult : Nat) (toks : List (Nat × Nat)) : List Item :=
+def lzItems (mult : Nat) (toks : List (Nat × Nat)) (noCopyCtx : List Nat := []) : List Item :=
   let vals := (toks.map (·.2)).toArray
   let ctxs := (toks.map (·.1)).toArray
   let cands := [1, mult, mult + 1, mult - 1, 2, 2 * mult].filter (· ≥ 1)
@@ -67,14 +71,16 @@ def lzItems (mult : Nat) (toks : List (Nat × Nat)) : List Item :=
             let l := matchLen vals i d 300
             if l > b.1 then (l, d) else b
           else b) (0, 0)
-        if best.1 ≥ 3 then .copy (ctxs.getD i 0) best.1 (distCodeFor mult best.2) :: go fuel (i + best.1)
+        if best.1 ≥ 3 ∧ !(noCopyCtx.contains (ctxs.getD i 0)) then
+          .copy (ctxs.getD i 0) best.1 (distCodeFor mult best.2) :: go fuel (i + best.1)
         else .lit (ctxs.getD i 0) (vals.getD i 0) :: go fuel (i + 1)
   go (vals.size + 1) 0
 
 /-- items of one section for a mode (`toks` tagged by context index) -/
-def sectionItems (mode : EntMode) (mult : Nat) (toks : List (Nat × Nat)) : List Item :=
+def sectionItems (mode : EntMode) (mult : Nat) (toks : List (Nat × Nat)) (noCopyCtx : List Nat := []) : List Item :=
   if mode == 3 ∨ mode == 4 then runItems 3 toks
   else if mode == 5 ∨ mode == 6 then lzItems mult toks
+  else if mode == 7 ∨ mode == 8 then lzItems mult toks noCopyCtx
   else toks.map fun (c, v) => .lit c v
 
 /-- build the coder for `numCtx` contexts with cluster map `clusters`, fitted to all sections
@@ -87,7 +93,8 @@ def mkCoder (mode : EntMode) (numCtx : Nat) (clusters : List Nat) (sections : Li
     let lz := mode ≥ 3
     let rle := mode == 3 ∨ mode == 4
     let nc := numClusters clusters
-    let kind : CoderKind := if mode == 2 ∨ mode == 4 ∨ mode == 6 then .ans 8 else .prefix
+    let kind : CoderKind := if mode == 2 ∨ mode == 4 ∨ mode == 6 ∨ mode == 8 then .ans 8 else .prefix
+    let noCopy := if mode == 7 ∨ mode == 8 then (List.range numCtx).filter (fun c => clusters.getD c 0 == 0) else []
     let cm := if lz then clusters ++ [nc] else clusters
     let ncAll := if lz then nc + 1 else nc
     let cfgs := List.replicate nc (⟨4, 1, 1⟩ : IntegerConfig) ++
@@ -96,18 +103,18 @@ def mkCoder (mode : EntMode) (numCtx : Nat) (clusters : List Nat) (sections : Li
       { numDist := numCtx, lz77 := if lz then some { minSymbol := 224, minLength := 3, lenConf := ⟨0, 0, 0⟩ } else none,
         clusterMap := cm, clusterNbits := bitsFor ncAll, coder := kind, configs := cfgs,
         codes := List.replicate ncAll (.auto .auto .auto) }
-    let secItems := sections.map fun (m, s) => (m, s, sectionItems mode m s)
+    let secItems := sections.map fun (m, s) => (m, s, sectionItems mode m s noCopy)
     let items := secItems.flatMap (·.2.2)
     let p := p0.resolve items
     -- every section must be expressible on its own and expand back to its tokens
     if ncAll ≤ 8 ∧ secItems.all (fun (m, s, it) => p.check it ∧ expandItems m it == s.map (·.2)) then
-      { mode, plan := p, v0 }
+      { mode, plan := p, v0, noCopyCtx := noCopy }
     else { mode := 0, plan := default, v0 }
 
 def Coder.header (c : Coder) (w : BW) : BW :=
   if c.mode == 0 then v0Header w c.v0 else w.bits (encodeHeader c.plan)
 
 def Coder.section (c : Coder) (w : BW) (mult : Nat) (toks : List (Nat × Nat)) : BW :=
-  if c.mode == 0 then v0Values w c.v0 toks else w.bits (encodeItems c.plan (sectionItems c.mode mult toks))
+  if c.mode == 0 then v0Values w c.v0 toks else w.bits (encodeItems c.plan (sectionItems c.mode mult toks c.noCopyCtx))
 
 end Jxl.Enc
